@@ -999,6 +999,14 @@ def gen_history(rng):
             if rng.random() < 0.5:                       # next to atom 0 instead of far away
                 far = [[state["xyz"][f][0][0] + _grid(0.17), state["xyz"][f][0][1] + _grid(0.11), state["xyz"][f][0][2] + _grid(0.07)]
                        for f in range(len(state["xyz"]))]
+            # never on top of (or within 0.02 nm of) an atom that is already there -- two additions "next to atom 0", or
+            # one after a deletion, would coincide, and sasa.cpp calls exit(1) on coincident atoms (outside the quantifier)
+            lim2 = _grid(0.02) ** 2
+            for _k in range(12):
+                if all(sum((far[f][d] - a[d]) ** 2 for d in range(3)) >= lim2
+                       for f, fr in enumerate(state["xyz"]) for a in fr):
+                    break
+                far = [[q[0] + _grid(0.05), q[1] + _grid(0.03), q[2]] for q in far]
             case["steps"].append({"op": op, "sym": sym, "res": r, "xyz": far})
             state["elems"].append(sym)
             state["resid"].append(r)
